@@ -496,18 +496,29 @@ def ambient_gate(ck):
         if b is None or not b.raw.get("locals") or str(b.raw["locals"][0]) != "()" or not str(b.raw["sp"].get("f", "")).startswith("tracing"):
             continue
         try:
-            paths = [p for p in PathEval(b).run() if p.end == "return"]
+            allp = PathEval(b).run()
         except Exception:
             continue
+        paths = [p for p in allp if p.end == "return"]
+        loops = [p for p in allp if p.end == "loop"]       # a path cut where it re-enters a loop: it did the loop body once
         n += 1
         if len(paths) < 2:
             ck.ok(rid, "%s does not skip its work for an ambient reason" % "::".join(fn.replace("<", "").split("::")[-2:])[:90], fn=fn, detail=len(paths))
             continue
         info = [(p, cond_calls(p)) for p in paths]
-        busy = [p for p, cc in info if any(c[0] not in cc for c in p.calls)]
+        def effects(p, cc):
+            # real calls only: dropping a by-value parameter on the way out is not "doing the function's work"
+            # ... and an atomic read-modify-write is an effect even when its result is also branched on (CAS loops)
+            def rmw(c):
+                pth = c[1].get("path") or ""
+                return "atomic::Atomic" in pth and pth.rsplit("::", 1)[-1] in ("compare_exchange", "compare_exchange_weak", "swap", "store",
+                                                                             "fetch_add", "fetch_sub", "fetch_or", "fetch_and", "fetch_update")
+            return [c for c in p.calls if (c[0] not in cc or rmw(c)) and c[1].get("path") != "<drop>" and c[1].get("path") != "core::mem::drop"]
+        busy = [p for p, cc in info if effects(p, cc)]
+        busy += [p for p in loops if effects(p, cond_calls(p))]
         bad = None
         for p, cc in info:
-            if not busy or any(c[0] not in cc for c in p.calls):
+            if not busy or effects(p, cc):
                 continue
             nonconst = [c for c in p.conds if c[0][0] != "const"]
             if nonconst and all(ambient_term(c[0]) and "arg" not in show(c[0]) for c in nonconst):
